@@ -805,6 +805,8 @@ def run(tier, only=None):
         if not sites:
             rep.ok("B7", "no-narrow-shift:" + unit, nontrivial=False)
     carry_steps(rep)
+    from . import immed
+    immed.report(rep, "B9", floor=8)      # conversions BInt -> machine integer outside the table: bintSmall only on immediates
     rep.floor("builtins with at least two comparable copies", compared, 150)
     rep.analysed_count("builtins", len(alltags))
     rep.assumptions += [
@@ -812,6 +814,8 @@ def run(tier, only=None):
         "comparison, logical operator, !x, 0/1 literal, conditional of such, a Bool operand, or a bigint/store predicate",
         "B8: in xxPlusStep/xxTimesStep (dword.c) every word sum has two terms and, when it reaches the result word, is followed by "
         "the carry test against one of them; the top-word sum of xxTimesStep (h + k, stored to *pko) cannot carry",
+        "B9: every use of the value of bintSmall(b) in the compiler is reached only when b is an immediate big integer "
+        "(bintIsSmall(b), |b| below a bound of at most 2^62, or a bit length of at most 62), rules/immed.py",
         "B7 is a width lint over bigint.c, dword.c, foam_c.c, foam_i.c, fint.c, of_cfold.c: an integer literal shifted left by a "
         "non-constant count in type int whose result flows into 64-bit arithmetic",
         "B5 = C02-Q1 restricted to the ring (integer) algebra: table cells of peepBValOpInfo are identities of a commutative ring with "
